@@ -853,7 +853,7 @@ def reader_rand_run(ctx, fileset, n, cases, chunk=2, intr=0, salt=0):
     cfg = dict(spec="Spec", invariants=READER_INV, properties=["Terminates", "FaultSurfaces"], view="View",
                constants=dict(FileSet='"%s"' % fileset, FileN=str(n), MaxChunk=str(chunk), MaxIntr=str(intr), FaultSet='"none"',
                               KeepShortChunks="TRUE", UnitAware="TRUE", Emit="TRUE", PayloadBytes="<-RandPayload", Units="<-RandUnits"))
-    return tlc(ctx, "RandReader", "MC_RandReader_%s%d" % (fileset, n), cfg, workers=14, timeout=3000, cases_file=cases)
+    return tlc(ctx, "RandReader", "MC_RandReader_%s%d_c%d_i%d" % (fileset, n, chunk, intr), cfg, workers=14, timeout=3000, cases_file=cases)
 
 
 def check_C08(ctx):
